@@ -393,8 +393,7 @@ def case_int_lists(res, ctx, case, rows):
         want = M.split_text(text, ',')
         sp = lib_split(text)
         res.transitions += 1
-        f = {'func': 'split', 'n_pieces': len(r), 'mixed_width': len(set(len(w) for w in want)) > 1,
-             'has_negative': any(v < 0 for v in r)}
+        f = {'func': 'split', 'n_pieces': len(r), 'mixed_width': len(set(len(w) for w in want)) > 1}
         if isinstance(sp, Raised) or isinstance(sp[0], Raised):
             _fail(res, 'int-list-split:raises', case, f, want, sp if isinstance(sp, Raised) else sp[0])
             bad += 1
@@ -461,7 +460,8 @@ def case_float_parse_batch(res, ctx, case, ts, via='str_to_float'):
             res.extra['batch_raises_and_so_does_a_row_alone(not judged here)'] += 1
         else:
             _fail(res, 'float-parse-independence:raises', case,
-                  dict(facts, func=via, row_form='n/a', row_has_point='n/a', row_first='n/a'), alone, batch)
+                  {'func': via, 'mixed_forms': facts['mixed_forms'], 'row_form': 'n/a', 'row_has_point': 'n/a',
+                   'row_first': 'n/a'}, alone, batch)
         res.outcome('str_to_float:batch-raises')
         return
     bad = 0
@@ -472,8 +472,8 @@ def case_float_parse_batch(res, ctx, case, ts, via='str_to_float'):
         if not _same_float(batch[i], alone[i]):
             bad += 1
             _fail(res, 'float-parse-independence', case,
-                  dict(facts, func=via, row_form='scientific' if forms[i] else 'decimal', row_has_point=points[i],
-                       row_first=(i == 0)),
+                  {'func': via, 'mixed_forms': facts['mixed_forms'], 'row_form': 'scientific' if forms[i] else 'decimal',
+                   'row_has_point': points[i], 'row_first': (i == 0)},
                   {'row': i, 'text': ts[i], 'alone': alone[i]}, {'row': i, 'in_batch': batch[i], 'batch': batch})
     res.outcome('str_to_float:n=%d:%s:%s' % (n, 'mixed' if mixed else 'uniform', 'ok' if not bad else 'dependent'))
     ctx.sample({'section': 'float_parse_batch', 'texts': ts, 'batch': _obs(batch)})
@@ -551,9 +551,7 @@ def case_bed_read(res, ctx, case, starts, stops, lazy):
     for name, texts, col in (('start', starts, 0), ('stop', stops, 1)):
         want = [M.int_value(t) for t in texts]
         facts = {'via': 'bed_read', 'lazy': bool(lazy), 'column_has_sign': any(t[0] in '+-' for t in texts),
-                 'column_mixed_width': len(set(len(t) for t in texts)) > 1,
-                 'column_has_leading_zero': any(len(t.lstrip('+-')) > 1 and t.lstrip('+-')[0] == '0' for t in texts),
-                 'digits': '15-19' if max(M.n_digits(w) for w in want) >= 15 else '1-14'}
+                 'column_mixed_width': len(set(len(t) for t in texts)) > 1}
         mixedw = mixedw or facts['column_mixed_width'] or facts['column_has_sign']
         if isinstance(got, Raised):
             _fail(res, 'file-int-column-parse:raises', case, facts, want, got)
@@ -702,10 +700,8 @@ def case_bed12(res, ctx, case, lists, comma, lazy):
     data = ''.join(_bed12_line(s, t, comma) + '\n' for s, t in zip(sizes, starts)).encode('latin1')
     got = lib_read_columns('bed12', data, bool(lazy), ['block_sizes', 'block_starts'])
     res.transitions += 1
-    facts = {'via': 'bed12_read', 'lazy': bool(lazy), 'trailing_comma': bool(comma),
-             'mixed_list_len': len(set(len(r) for r in sizes)) > 1,
-             'has_negative': any(v < 0 for r in sizes for v in r)}
-    if facts['mixed_list_len'] or len(set(len(str(v)) for r in sizes for v in r)) > 1:
+    facts = {'via': 'bed12_read', 'lazy': bool(lazy), 'trailing_comma': bool(comma)}
+    if len(set(len(r) for r in sizes)) > 1 or len(set(len(str(v)) for r in sizes for v in r)) > 1:
         res.nontrivial += 1
     bad = 0
     if isinstance(got, Raised):
